@@ -17,7 +17,9 @@ pub fn check(t: &Trace<'_>, out: &mut CaseOut) -> bool {
         let p = &t.log.probes[*idx];
         for (h, st) in p.status.iter().enumerate() {
             let Some(msg) = by_handle[h] else { continue };
-            let want: u8 = if msg.invalidated_ev.is_some_and(|x| x < ev) {
+            // a fresh broker session replaced the issuing one (also for handles that had completed)
+            let replaced = t.epoch_at[ev] > msg.epoch;
+            let want: u8 = if replaced {
                 4
             } else if msg.ended_ev.is_some_and(|x| x < ev) {
                 2
